@@ -1,7 +1,25 @@
-//! C15: correspondence + oracle runs (sub-commands `c15` / `c15-*`).
+//! C15: address generator + DHCP.
+//!   `c15`          op histories on the real `IpGenerator` (diffed against the Lean model) + oracle
+//!   `c15-dhcp`     real `DhcpServer::demux` / `DhcpClient::demux` driven message by message under an
+//!                  arbitrary delivery order with duplication (diffed against the Lean model) + oracle
+//!   `c15-sim`      1..16 DHCP clients started together in a real simulation (child processes,
+//!                  because `run_internet` installs a panic hook that exits the process) + oracle
+//!   `c15-simchild` hidden: one batch of simulations, one result line per simulation on stdout
 use hcommon::*;
 
+mod gen;
+mod dhcp;
+mod sim;
+
 pub fn run(args: &Args) {
-    eprintln!("hfull: {} not implemented yet", args.prop);
-    std::process::exit(2);
+    match args.prop.as_str() {
+        "c15" => gen::run(args),
+        "c15-dhcp" => dhcp::run(args),
+        "c15-sim" => sim::run(args),
+        "c15-simchild" => sim::child(args),
+        other => {
+            eprintln!("hfull: unknown c15 variant {}", other);
+            std::process::exit(2);
+        }
+    }
 }
